@@ -13,6 +13,7 @@ LEVEL_TEXT = ("Output monitoring of qualify() on generated queries with ground t
               "generator's record, and qualify(result) / qualify(parse(result SQL)) reproduce the same SQL. Identifier "
               "normalisation is compared with a 15-line reference model driven by a pinned per-dialect table, for quoted, "
               "unquoted, mixed-case and non-ASCII identifiers, including idempotence and the strategy override syntax.")
+LEVEL_TEXT += (" Queries include correlated references below derived tables and NATURAL JOINs; the visibility resolver hides a query's own sources from its FROM items and CTE bodies.")
 LEVEL_NOTE = ("the per-dialect normalisation strategies are pinned in vf/spec/normalization.json (the dialect rules are the "
               "specification; reading them from the library at run time would follow a mutant)")
 TECHNIQUE = "runtime monitoring: ground-truth + independent resolver oracle on qualify output; reference-model comparison for identifier normalisation"
